@@ -7,6 +7,7 @@ package main
 import (
 	"fmt"
 	"go/types"
+	"regexp"
 	"sort"
 	"strconv"
 	"strings"
@@ -767,6 +768,30 @@ func registerLibIntrinsics() {
 
 	I["time.Now"] = func(in *Interp, fr *frame, args []Value) (Value, bool) {
 		return in.zero(fr.curInstr.(ssa.Value).Type()), true
+	}
+	I["regexp.MustCompile"] = func(in *Interp, fr *frame, args []Value) (Value, bool) {
+		c := in.needConcrete(fr, "regexp.MustCompile", args[0])
+		cell := new(Value)
+		*cell = Struct{}
+		o := in.newObj("regexp")
+		o.str = CStr(c[0])
+		in.side[cell] = o
+		return cell, true
+	}
+	I["(*regexp.Regexp).FindAllString"] = func(in *Interp, fr *frame, args []Value) (Value, bool) {
+		o := in.sideObj(args[0], "regexp")
+		pat, _ := o.str.Concrete()
+		c := in.needConcrete(fr, "Regexp.FindAllString", args[1])
+		n := in.concreteInt(fr, args[2], "FindAllString n")
+		re, err := regexp.Compile(pat)
+		if err != nil {
+			in.unsupported("regexp %q", pat)
+		}
+		res := re.FindAllString(c[0], n)
+		if res == nil {
+			return Slice{}, true
+		}
+		return strSliceValue(res), true
 	}
 	I["time.Sleep"] = func(in *Interp, fr *frame, args []Value) (Value, bool) {
 		in.preempt()
